@@ -64,7 +64,7 @@ func TestC04(t *testing.T) {
 		var pool []uint64               // heights skipped earlier (gaps to fill)
 		for j := 0; j < nops; j++ {
 			switch x := rng.Intn(100); {
-			case x < 55: // append
+			case x < 50: // append
 				var hs []uint64
 				sz := 1 + rng.Intn(6)
 				mode := rng.Intn(6)
@@ -100,6 +100,9 @@ func TestC04(t *testing.T) {
 				if len(hs) > 0 {
 					p.Ops = append(p.Ops, c04Op{Op: "append", Hs: hs})
 				}
+			case x < 62:
+				// append the K heights right above the observed Head (re-appends a deleted suffix, if any)
+				p.Ops = append(p.Ops, c04Op{Op: "append-next", K: 1 + rng.Intn(5)})
 			case x < 70:
 				p.Ops = append(p.Ops, c04Op{Op: "sync"})
 			case x < 85:
@@ -151,6 +154,18 @@ func c04Run(c *mon.Case, p c04P) {
 				}
 				if err := e.appendHs(op.Hs...); err != nil {
 					c.Violation("append-fails", fmt.Sprintf("Append(%v): %v", op.Hs, err), nil)
+					return
+				}
+				c.Count("appends", 1)
+			case "append-next":
+				hs, ok := e.nextAbove(op.K)
+				if !ok {
+					tag = "append-next-skipped"
+					break
+				}
+				seenAppend = true
+				if err := e.appendHs(hs...); err != nil {
+					c.Violation("append-fails", fmt.Sprintf("Append(%v): %v", hs, err), nil)
 					return
 				}
 				c.Count("appends", 1)
